@@ -21,7 +21,7 @@ FUNCS = ["interfaces.ObservableResource._render_to_pipe", "resource.ObservableRe
          "TokenManager.process_request/dispatch_error/shutdown", "MessageManager.send_message/_remove_exchange/_retransmit/dispatch_error",
          "pipe.run_driving_pipe/Pipe"]
 
-EV = ["change", "ack", "rst", "timer", "rereg", "plainget", "error", "unsuccessful", "wait", "dereg", "shutdown"]
+EV = ["change", "ack", "rst", "timer", "rereg", "plainget", "error", "unsuccessful", "wait", "dereg", "shutdown", "last", "last+change"]
 
 
 def mk_obs(first, depth, slow, reg_con, allow_rst=True, two_observers=False):
@@ -186,6 +186,21 @@ def mk_obs(first, depth, slow, reg_con, allow_rst=True, two_observers=False):
                         if reg is not None:
                             end(reg, final_allowed=1)
                             reg = None
+                    elif ev in ("last", "last+change"):
+                        # the resource marks its next notification to this observer as the last one (and, in the same tick,
+                        # also announces a state change)
+                        if two_observers:
+                            continue
+                        for o in list(res._observations):
+                            o.trigger(Message(payload=b"bye"), is_last=True)
+                        if ev == "last+change":
+                            res.state += 1
+                            res.updated_state()
+                        loop.run_ready()
+                        loop.advance(10)
+                        if reg is not None:
+                            end(reg, final_allowed=1)
+                            reg = None
                     elif ev == "wait":
                         loop.advance(7)
                     else:
@@ -200,6 +215,11 @@ def mk_obs(first, depth, slow, reg_con, allow_rst=True, two_observers=False):
                     attribute()
                     ns = notifs()
                     assert all(o.token == TOK for o in ns)
+                    # notifications after the registration response are separate messages: confirmable / non-confirmable like the
+                    # registration, never an ACK, and under fresh message IDs
+                    for o in ns:
+                            if o.opt.observe != 0:
+                                assert o.mtype == (CON if reg_con else NON) and not (501 <= o.mid <= mids[0]), "notification sent as ACK / under a request's message ID"
                     # Observe values strictly increase within a registration (a registration starts with the value 0 response)
                     run = []
                     for o in ns:
